@@ -77,6 +77,119 @@ def implications(ctx, g):
     ctx.require(okt, "T3-commutation-exhaustive", b.name, "true<-queue empty", "`true` only when the work queue is empty", "check_and_apply_implications can return true while entries are still queued")
 
 
+def unov(t):
+    """x.checked-op .0 -> plain binop"""
+    return map_term(t, lambda x: ("binop", x[1][1].replace("WithOverflow", ""), x[1][2], x[1][3])
+                    if x[0] == "field" and str(x[2]) == "0" and x[1][0] == "binop" and x[1][1].endswith("WithOverflow") else None)
+
+
+def walk_shape(ctx, g):
+    """the orbit scan the closure relies on: scan_single_direction walks e -> op(w[k], e) for k in 0..limit from d and reports where the walk
+    stands (the current element and the steps taken) at BOTH of its exits; scan_orbit walks i,j,i,j forward and j,i,j,i backward with the
+    remaining budget and reports (head, tail, 4 - a - b, the index of the missing edge = w[a])"""
+    ctx.clauses.append("orbit scan: both exits report the walk's current element and step count; scan_orbit = (head, tail, 4 - a - b, w[a]) (T9)")
+    M_ = "generators::dset_generators::"
+    b = ctx.body(M_ + "scan_single_direction")
+    ctx.scan([b])
+    P = lambda i: ("param", i, b.debug.get(i, ""))
+    ops = list(b.calls(exact="dsets::PartialDSet::op_unchecked"))
+    ctx.floor("op_unchecked calls in scan_single_direction", len(ops), 1)
+    cur = None
+    for bi, t in ops:
+        a = [norm(b.origin(x), g) for x in t["args"]]
+        okidx = a[1][0] == "index" and strip(a[1][1]) == P(2)
+        r = loop_range_of_payload(b, a[1][2], g) if okidx else None
+        okr = r is not None and r[0] == ("int", 0) and strip(r[1]) == P(4) and not r[2]
+        ctx.require(okidx and okr, "T9-walk-step", b.name, "op(w[k], e), k in 0..limit", "each step applies w[k] for the loop's own k in 0..limit",
+                    "the step is not op(w[k], e) with k ranging over 0..limit: %s / %s" % (show(a[1], 1)[:50], r and (show(r[0], 1), show(r[1], 1)[:30], r[2])), b.span_of(bi))
+        if a[2][0] == "local":
+            cur = a[2]
+            defs = sorted(origin_head(norm(d, g)) for _, d in b.all_defs_origins(cur[1]))
+            okd = len(defs) == 2 and strip(norm(b.all_defs_origins(cur[1])[0][1], g)) == P(3) and \
+                any(is_call(norm(d, g), "op_unchecked") for _, d in b.all_defs_origins(cur[1]))
+            ctx.require(okd, "T9-walk-step", b.name, "e := d, then e := op(w[k], e)", "the walk starts at d and moves to each defined image",
+                        "the walk's current element is not (d, then each op result): %s" % defs, b.span_of(bi))
+            # the move happens only on a defined image
+            for dbb, d in b.all_defs_origins(cur[1]):
+                d = norm(d, g)
+                if is_call(d, "op_unchecked"):
+                    fa = [atom_norm(x, g) for x in b.facts_at(dbb)]
+                    okn = any(x[0] == "rel" and implies(x, ("rel", "Ne", x[2], ("int", 0))) and is_call(x[2], "op_unchecked") for x in fa)
+                    ctx.require(okn, "T9-walk-step", b.name, "move<-en != 0", "the walk only moves to a defined image", "the walk moves to an image without the image being != 0", b.span_of(dbb))
+        else:
+            ctx.ob("T9-walk-step", b.name, "e carried", "violation", "the element the step is applied to is not a loop-carried local: %s" % show(a[2], 1)[:40], b.span_of(bi))
+    rets = [(bi, [norm(b.origin(x), g) for x in s["rv"]["ops"]]) for bi, si, s in b.assigns()
+            if s["place"]["l"] == 0 and not s["place"]["p"] and s["rv"]["k"] == "aggregate" and s["rv"].get("agg") == "tuple"]
+    ctx.floor("tuple returns of scan_single_direction", len(rets), 2)
+    for n, (bi, vals) in enumerate(rets):
+        fa = [atom_norm(x, g) for x in b.facts_at(bi)]
+        early = any(x[0] == "rel" and x[1] == "Eq" and is_call(x[2], "op_unchecked") and x[3] == ("int", 0) for x in fa)
+        ok0 = cur is not None and vals[0] == cur
+        ctx.ob("T9-walk-exit", b.name, ("undefined-image exit" if early else "budget-used exit") + ":element", "ok" if ok0 else "violation",
+               "the exit reports the walk's current element" if ok0 else
+               "the exit reports %s instead of the walk's current element: a walk that moved is reported at the wrong chamber" % show(vals[0], 1)[:40], b.span_of(bi))
+        if early:
+            r = loop_range_of_payload(b, vals[1], g)
+            ok1 = r is not None and strip(r[1]) == P(4)
+            what = "the steps taken so far (the loop's k)"
+        else:
+            ok1 = strip(vals[1]) == P(4)
+            what = "limit (all steps taken)"
+        ctx.ob("T9-walk-exit", b.name, ("undefined-image exit" if early else "budget-used exit") + ":steps", "ok" if ok1 else "violation",
+               "the exit reports " + what if ok1 else "the exit reports %s, not %s" % (show(vals[1], 1)[:40], what), b.span_of(bi))
+    # scan_orbit
+    so = ctx.body(M_ + "scan_orbit")
+    ctx.scan([so])
+    Q = lambda i: ("param", i, so.debug.get(i, ""))
+    ds_, i_, j_, d_ = Q(1), Q(2), Q(3), Q(4)
+    r = unov(norm(ret_origin(so, g), g))
+    S = lambda w, lim: ("call", M_ + "scan_single_direction", (ds_, ("agg", "array", tuple(w)), d_, lim))
+    s1 = S([i_, j_, i_, j_], ("int", 4))
+    a_ = ("field", s1, "1")
+    s2 = S([j_, i_, j_, i_], ("binop", "Sub", ("int", 4), a_))
+    b_ = ("field", s2, "1")
+    def stripcall(t):
+        return map_term(t, lambda x: x[:3] if x[0] == "call" else None)
+    r = stripcall(r)
+    okshape = r[0] == "agg" and r[1] == "tuple" and len(r[2]) == 4
+    if not okshape:
+        ctx.ob("T9-scan-orbit", so.name, "return", "violation", "scan_orbit does not return a 4-tuple: " + show(r, 1)[:80])
+        return
+    head, tail, gap, k = r[2]
+    ctx.ob("T9-scan-orbit", so.name, "head", "ok" if head == ("field", s1, "0") else "violation",
+           "head = end of the i,j,i,j walk from d with budget 4" if head == ("field", s1, "0") else "head is not scan(ds, [i, j, i, j], d, 4).0: " + show(head, 1)[:90])
+    ctx.ob("T9-scan-orbit", so.name, "tail", "ok" if tail == ("field", s2, "0") else "violation",
+           "tail = end of the j,i,j,i walk from d with the remaining budget 4 - a" if tail == ("field", s2, "0") else "tail is not scan(ds, [j, i, j, i], d, 4 - a).0: " + show(tail, 1)[:110])
+    gaps = (("binop", "Sub", ("binop", "Sub", ("int", 4), a_), b_), ("binop", "Sub", ("int", 4), ("binop", "Add", a_, b_)))
+    ctx.ob("T9-scan-orbit", so.name, "gap", "ok" if gap in gaps else "violation",
+           "gap = 4 - a - b" if gap in gaps else "gap is not 4 - a - b: " + show(gap, 1)[:110])
+    okk = False
+    det = show(k, 1)[:60]
+    if k[0] == "local":
+        defs = [(dbb, strip(norm(d, g))) for dbb, d in so.all_defs_origins(k[1])]
+        if sorted(str(d) for _, d in defs) == sorted([str(i_), str(j_)]):
+            okk = True
+            for dbb, d in defs:
+                fa = [unov(stripcall(atom_norm(x, g))) if False else atom_norm(x, g) for x in so.facts_at(dbb)]
+                fa = [tuple(stripcall(unov(y)) if isinstance(y, tuple) else y for y in x) for x in fa]
+                want_even = d == i_
+                for a in (0, 1, 2, 3, 4):
+                    vals = [eval_atom_with(x, a_, a) for x in fa if any(isinstance(y, tuple) and contains(y, lambda s_: s_ == a_) for y in x[1:])]
+                    vals = [v for v in vals if v is not None]      # overflow-assert atoms do not fold and say nothing about parity
+                    if not vals:
+                        okk = False
+                        det = "the guard of the missing-edge index does not fold for a = %d: %s" % (a, [show_atom(x)[:50] for x in fa])
+                        break
+                    if all(vals) != ((a % 2 == 0) == want_even):
+                        okk = False
+                        det = "for a = %d forward steps the missing edge is reported with index %s, but the next step of the i,j,i,j walk is %s" % (a, "i" if all(vals) == want_even else "j", "i" if a % 2 == 0 else "j")
+                        break
+        else:
+            det = "missing-edge index is chosen from %s, not from {i, j}" % [show(d, 1)[:20] for _, d in defs]
+    ctx.ob("T9-scan-orbit", so.name, "missing-edge index", "ok" if okk else "violation",
+           "the missing edge has index w[a]: i for an even number of forward steps, j for an odd number" if okk else det)
+
+
 def run(ctx):
     g = ctx.facts.getters()
     ch = ctx.body(BT + "children")
@@ -160,6 +273,7 @@ def run(ctx):
                "only the result vector and the two scratch renumbering buffers are carried between candidates" if not extra else
                "state %s is carried from one candidate image to the next" % extra)
     implications(ctx, g)
+    walk_shape(ctx, g)
     ctx.clauses.append("only complete D-sets are emitted (T3)")
     es = [(bi, si, s) for bi, si, s in ex.assigns() if s["place"]["l"] == 0 and s["rv"]["k"] == "aggregate" and s["rv"].get("variant") == "Some"]
     ctx.floor("Some(..) in DSet extract", len(es), 1)
